@@ -54,6 +54,44 @@ extern "C" void harness_c30_poly()
     }
     VERIF_END();
 }
+// cubics and quartics given by their integer roots (one path per root tuple): every rational element of the returned set is a root,
+// and every integer root is reported as a member (elements left as unsimplified radicals are not judged)
+extern "C" void harness_c30_factored()
+{
+    long B = verif_param("B", 2);
+    unsigned n = 3 + (unsigned)verif_choice("deg", 2);
+    RCP<const Symbol> x = symbol("x");
+    std::vector<long> rs;
+    RCP<const Basic> f = integer(1 + (long)verif_choice("lead", 2)); // leading coefficient 1 or 2
+    for (unsigned i = 0; i < n; i++) {
+        long r = -B + (long)verif_choice(("r" + std::to_string(i)).c_str(), 2 * B + 1);
+        if (i > 0)
+            verif_assume(r >= rs.back()); // unordered tuples once
+        rs.push_back(r);
+        f = mul(f, sub(x, integer(r)));
+    }
+    f = expand(f);
+    RCP<const Set> sol = solve(f, x);
+    verif_assert(is_a<FiniteSet>(*sol), "a cubic / quartic with integer roots has a finite solution set");
+    if (is_a<FiniteSet>(*sol)) {
+        const set_basic &roots = down_cast<const FiniteSet &>(*sol).get_container();
+        bool allNumbers = true;
+        for (auto &r : roots) {
+            if (is_a<Integer>(*r) || is_a<Rational>(*r)) {
+                map_basic_basic m;
+                m[x] = r;
+                verif_assert(eq(*expand(f->subs(m)), *zero), "every rational element of the solution set is a root");
+            } else
+                allNumbers = false;
+        }
+        if (allNumbers) {
+            for (long r : rs)
+                verif_assert(roots.count(integer(r)) == 1, "every root of the product is in the solution set");
+            verif_assert(roots.size() <= n, "no more solutions than the degree");
+        }
+    }
+    VERIF_END();
+}
 // linear systems: linsolve on an augmented 2x3 matrix
 extern "C" void harness_c30_linsolve()
 {
